@@ -18,12 +18,12 @@ P = {
         {'name': 'evmexec', 'n': {'quick': 500, 'thorough': 20000}, 'args': {'prop': 'C16'}, 'batch': 5000},
         {'name': 'evmquery', 'n': {'quick': 150, 'thorough': 5000}, 'batch': 5000},
         {'name': 'stakestates', 'n': {'quick': 1500, 'thorough': 40000}, 'batch': 5000, 'shrink_field': 'script'},
-        {'name': 'stakequery', 'n': {'quick': 400, 'thorough': 12000}, 'batch': 4000, 'shrink_field': 'script'},
+        {'name': 'stakequery', 'n': {'quick': 400, 'thorough': 10000}, 'batch': 4000, 'shrink_field': 'script'},
     ],
     'coq_header': 'From HV Require Import Staking.StakeModel.\nFrom HV Require Import Evm.ExecModel.\nFrom Coq Require Import ZArith NArith List.\nImport ListNotations.',
     'lists': {'cases': {'type': 'ecase * list Z * eobs', 'check': 'mismatches', 'shard': 50},
               'stake': {'type': 'scase', 'check': 'stake_mismatches', 'shard': 400},
-              'squery': {'type': 'qcase', 'check': 'query_mismatches', 'shard': 60}},
+              'squery': {'type': 'qcase', 'check': 'query_mismatches', 'shard': 150}},
     'search': {'rounds': 3, 'n': 2000},
     'rule': 'a case is a random setup (balances, delegations, allocated rewards, withdraw addresses, staking and ICS-20 transfer grants of the signer) '
             'plus one Ethereum transaction: either EOA -> staking/distribution/ICS-20 precompile or EOA -> script contract running a '
